@@ -3,6 +3,7 @@ import TFV.Properties.Runs
 import TFV.Properties.Src.BoundsControl
 import TFV.Properties.Src.Binomial
 import TFV.Properties.Src.Donors
+import TFV.Properties.Src.DETrial
 #print axioms TFV.DE.C07_clamp
 #print axioms TFV.DE.C07_clampMean
 #print axioms TFV.DE.C07_repair_only_outside
@@ -30,3 +31,6 @@ import TFV.Properties.Src.Donors
 #print axioms TFV.SrcTie.C07_src_rand_2
 #print axioms TFV.SrcTie.C07_src_current_to_pbest_1_archive
 #print axioms TFV.SrcTie.C07_src_donor_distinct
+#print axioms TFV.SrcTie.C07_src_de_trial
+#print axioms TFV.SrcTie.C07_src_de_trial_in_box
+#print axioms TFV.SrcTie.C07_src_shade_trial
